@@ -217,3 +217,29 @@ CONTRACTS.append(_Contract(
     descr="three schemes, each a disabled hasher or not",
 ))
 MUTANTS.append(("disabled_record picks the last disabled hasher", "passlib/context.py", "        for record in self._get_record_list(None):\n            if record.is_disabled:\n                return record", "        for record in reversed(self._get_record_list(None)):\n            if record.is_disabled:\n                return record", "refute", "disabled_record"))
+
+# ---- a derived unix_disabled hasher (using(marker=...)) differs from the shipped one in its default marker ONLY: what it
+#      identifies as disabled and which prefixes enable() strips (_disable_prefixes) stay the class's, so enable(disable(h))
+#      == h and "bare marker refused" (proved above over the class constants) carry over to every derived hasher ----
+from contracts import c09_frames as _fr  # noqa: E402
+
+
+def _using_only_marker(it, env):
+    sub = it.run.ghost.get("sub")
+    if sub is None:
+        return z3.BoolVal(False)
+    # only the attributes the disabled-hash behaviour reads matter (another bookkeeping attribute is not a violation)
+    return z3.BoolVal(not (set(sub.fields) & {"_disable_prefixes", "identify", "verify", "enable", "disable", "hash", "genhash"}))
+
+
+_ud = next(t for t in _fr.TARGETS if t[0] == "unix_disabled.using")
+CONTRACTS.append(_Contract(
+    "unix_disabled.using[marker only]", "passlib/handlers/misc.py::unix_disabled.using",
+    params={"cls": _Obj(cls=("passlib/handlers/misc.py", "unix_disabled"), is_class=True, fields=_ud[5]), **_ud[4]},
+    globals=dict(_fr.G),
+    raises={"ValueError": None, "TypeError": None},
+    ensures=[("the derived hasher overrides neither the prefixes enable() strips nor identify / verify / enable / disable / hash: they are inherited unchanged", _using_only_marker)],
+    canary=False,
+    descr="arbitrary marker (None or any string); identify() abstract",
+))
+MUTANTS.append(("unix_disabled.using narrows the prefixes enable() strips to the custom marker", "passlib/handlers/misc.py", "            subcls.default_marker = marker\n", "            subcls.default_marker = marker\n            subcls._disable_prefixes = (marker,)\n", "refute", r"using\[marker only"))
